@@ -242,7 +242,7 @@ func sameOutcome(a, b opResult) string {
 		return "output count differs"
 	}
 	for i := range a.outs {
-		if d := sameBits(a.outs[i], b.outs[i]); d != "" {
+		if d := approxSame(a.outs[i], b.outs[i], 1e-5); d != "" {
 			return fmt.Sprintf("output %d: %s", i, d)
 		}
 	}
